@@ -611,6 +611,17 @@ fn exec(pool: &[Option<Obj>], toks: &[&str]) -> Step {
                 _ => Step::Na,
             }
         }
+        "csvin" if toks[1] == "missing" => {
+            // a path that does not exist: the io::Error passes through as TruthTableFromCsvError::IOError
+            let d = tempfile::tempdir().unwrap();
+            match T::from_csv_file(d.path().join("does-not-exist.csv")) {
+                Ok(t) => Step::Ok(Obj::T(t)),
+                Err(e) => {
+                    let _ = e.to_string();
+                    Step::ErrV(csv_err_name(&e).to_string())
+                }
+            }
+        }
         "csvin" => match csv_in(toks[1] == "file", &unhex(toks[2])) {
             Ok(t) => Step::Ok(Obj::T(t)),
             Err(v) => Step::ErrV(v),
